@@ -91,6 +91,9 @@ class StochasticSolver(ABC):
     def set_failed_epoch(self):
         """Set internal state on failed epoch."""
 
+    def reset_state(self):
+        """Forget optimizer state of earlier solves (called at the start of solve)."""
+
     def solve(  # noqa: PLR0913
         self,
         initial_model: ttb.ktensor,
@@ -136,6 +139,7 @@ class StochasticSolver(ABC):
         # Setup loop variables
         model = initial_model.copy()
         self._nfails = 0
+        self.reset_state()
 
         best_model = model.copy()
         f_est_prev = f_est
@@ -222,9 +226,9 @@ class StochasticSolver(ABC):
         main_time = time.perf_counter() - main_start
 
         info = {
-            "f_est_trace": fest_trace[0 : n_epoch + 1],
-            "step_trace": step_trace[0 : n_epoch + 1],
-            "time_trace": time_trace[0 : n_epoch + 1],
+            "f_est_trace": fest_trace[0 : n_epoch + 2],
+            "step_trace": step_trace[0 : n_epoch + 2],
+            "time_trace": time_trace[0 : n_epoch + 2],
             "n_epoch": n_epoch,
         }
 
@@ -318,6 +322,10 @@ class Adam(StochasticSolver):
         self._v: List[np.ndarray] = []
         self._v_prev: List[np.ndarray] = []
 
+    def reset_state(self):  # noqa: D102
+        self._total_iterations = 0
+        self._m, self._m_prev, self._v, self._v_prev = [], [], [], []
+
     def set_failed_epoch(  # noqa: D102
         self,
     ):
@@ -385,6 +393,9 @@ class Adagrad(StochasticSolver):
             max_iters,
             printitn,
         )
+        self._gnormsum = 0.0
+
+    def reset_state(self):  # noqa: D102
         self._gnormsum = 0.0
 
     def set_failed_epoch(  # noqa: D102
